@@ -62,6 +62,22 @@ def run_case(kind, attack, ns, bsz, frame, pps, conv=None):
     finally:
         scared.set_batch_size(None)
 
+def binning_case(bsz):
+    """a distinguisher that bins the raw sample values (MIA) with an integer accumulator precision: the batches must reach it as the container delivers them"""
+    import scared
+    scared.set_batch_size(bsz)
+    try:
+        ths, s, pt = mk_ths(40, seed=7); sf, rsf = sfun()
+        edges = np.linspace(-12, 24, 7)
+        a = scared.MIAReverse(selection_function=rsf, model=scared.HammingWeight(), partitions=range(9), bin_edges=edges, precision='uint32')
+        a.run(scared.Container(ths))
+        d = scared.MIADistinguisher(bin_edges=edges, partitions=range(9), precision='uint32'); d.update(s, a.model(a.selection_function(plaintext=pt)))
+        ref = d.compute()
+        if a.results.shape != ref.shape or not np.allclose(a.results, ref, rtol=1e-9, atol=1e-12, equal_nan=True): return 'MIAReverse(precision=uint32) on float64 samples differs from the one-shot distinguisher on the same samples (max diff %r)' % float(np.nanmax(np.abs(a.results - ref)))
+        return None
+    finally:
+        scared.set_batch_size(None)
+
 def conv_case(kind, ns, bsz, step, precision='float64'):
     import scared
     scared.set_batch_size(bsz)
@@ -138,6 +154,11 @@ def bounded(prop, seed, tier, quick_only=False):
                         try: r = run_case(kind, attack, ns, bsz, fr, pp, conv=(rnd.choice([None, None, 2, 7]) if attack else None))
                         except Exception as e: r = 'raises %r' % (e,)
                         if r: fails.append(dict(kind='run', function='scared.analysis.base::_BaseAnalysis.run', klass=kind + ('Attack' if attack else 'Reverse'), ns=ns, batch=bsz, frame=str(fr), npp=len(pp), detail=r))
+        for b_ in (3, 40):
+            ev += 1
+            try: r = binning_case(b_)
+            except Exception as e: r = 'raises %r' % (e,)
+            if r: fails.append(dict(kind='run', function='scared.analysis.base::_BaseAnalysis.process', klass='MIAReverse', batch=b_, detail=r))
         # batch-size modes
         for spec_, trace_size, exp in ((7, 10, 7), (None, 10, 25000), (None, 1001, 5000), (None, 60000, 250), (None, 100001, 100), (None, 10**7, 100)):
             ev += 1; scared.set_batch_size(spec_)
